@@ -285,6 +285,8 @@ func canonKey(v Value) (string, bool) {
 		return "", false
 	case float64:
 		return fmt.Sprintf("f%v", v), true
+	case LazyFloat:
+		return "", false
 	case *Value:
 		return fmt.Sprintf("p%p", v), true
 	case *Chan:
@@ -345,6 +347,8 @@ func describe(v Value) string {
 		return fmt.Sprintf("<symstr %d>", len(v))
 	case float64:
 		return fmt.Sprint(v)
+	case LazyFloat:
+		return "<lazyfloat>"
 	case *Value:
 		if v == nil {
 			return "nilptr"
